@@ -112,16 +112,19 @@ func init() {
 			return true
 		},
 		// ----- errors / fmt -----
-		"errors.Is":     stubErrorsIs,
-		"errors.As":     stubErrorsAs,
-		"errors.Unwrap": stubErrorsUnwrap,
-		"fmt.Errorf":    stubErrorf,
-		"fmt.Sprintf":   stubOpaqueString("fmt"),
-		"fmt.Sprint":    stubOpaqueString("fmt"),
-		"fmt.Sprintln":  stubOpaqueString("fmt"),
-		"fmt.Fprintf":   stubNop2,
-		"fmt.Printf":    stubNop2,
-		"fmt.Println":   stubNop2,
+		"errors.Is":               stubErrorsIs,
+		"reflect.TypeOf":          stubReflectTypeOf,
+		"(*net.TCPAddr).AddrPort": stubAddrPort,
+		"(*net.UDPAddr).AddrPort": stubAddrPort,
+		"errors.As":               stubErrorsAs,
+		"errors.Unwrap":           stubErrorsUnwrap,
+		"fmt.Errorf":              stubErrorf,
+		"fmt.Sprintf":             stubOpaqueString("fmt"),
+		"fmt.Sprint":              stubOpaqueString("fmt"),
+		"fmt.Sprintln":            stubOpaqueString("fmt"),
+		"fmt.Fprintf":             stubNop2,
+		"fmt.Printf":              stubNop2,
+		"fmt.Println":             stubNop2,
 		// ----- bytes -----
 		"bytes.Equal":                                 stubBytesEqual,
 		"internal/bytealg.Equal":                      stubBytesEqual,
@@ -666,6 +669,49 @@ func (e *Engine) wrapErrType() types.Type {
 	return t
 }
 
+// rtypeType is the dynamic type of the reflect.Type values handed out by the reflect.TypeOf stub: one
+// object per distinct dynamic Go type and state (kept in the ghost map), so that == on two reflect.Type
+// values means "same dynamic type", as in the real runtime.
+func (e *Engine) rtypeType() types.Type {
+	e.mu.Lock()
+	defer e.mu.Unlock()
+	if t, ok := e.errTypeCache["vRType"]; ok {
+		return t
+	}
+	n := types.NewNamed(types.NewTypeName(token.NoPos, nil, "vRType", nil), types.NewStruct(nil, nil), nil)
+	t := types.NewPointer(n)
+	e.errTypeCache["vRType"] = t
+	return t
+}
+
+func stubReflectTypeOf(e *Engine, c *callCtx) bool {
+	iv, ok := c.args[0].(IfaceV)
+	if !ok || iv.typ == nil {
+		c.set(IfaceV{})
+		return true
+	}
+	name := iv.typ.String()
+	key := "rtype:" + name
+	if c.st.ghost == nil {
+		c.st.ghost = map[string]Value{}
+	}
+	if v, ok := c.st.ghost[key]; ok {
+		c.set(v)
+		return true
+	}
+	e.mu.Lock()
+	if e.rtypes == nil {
+		e.rtypes = map[string]types.Type{}
+	}
+	e.rtypes[name] = iv.typ
+	e.mu.Unlock()
+	id := e.newObj(c.st, &Object{kind: kStruct, typ: e.rtypeType(), fields: []Value{StrV{k: strLit, lit: name}}})
+	v := IfaceV{typ: e.rtypeType(), val: PtrV{id, -1}}
+	c.st.ghost[key] = v
+	c.set(v)
+	return true
+}
+
 func (e *Engine) ctxType() types.Type {
 	e.mu.Lock()
 	defer e.mu.Unlock()
@@ -1102,5 +1148,58 @@ func stubItoa(e *Engine, c *callCtx) bool {
 		return true
 	}
 	c.set(StrV{k: strOpaque, tag: "itoa", t: e.iconv(v, 64, true).t})
+	return true
+}
+
+// (*net.TCPAddr).AddrPort / (*net.UDPAddr).AddrPort: netip.AddrPort{ip: Addr{addr: uint128{hi, lo}, z}, port}
+// as the real netip.AddrFromSlice builds it: a 4-byte IP is ::ffff:a.b.c.d with z = z4, a 16-byte IP keeps
+// its bytes with z = z6noz (so the IPv4-mapped 16-byte form and the 4-byte form of one address DIFFER, as
+// in the real package), any other length is the zero Addr. Zones are not modelled (always empty).
+func stubAddrPort(e *Engine, c *callCtx) bool {
+	rt := c.callee.Signature.Results().At(0).Type()
+	p, _ := c.args[0].(PtrV)
+	if p.obj == 0 {
+		c.set(e.zeroVal(rt))
+		return true
+	}
+	o := c.st.obj(p.obj)
+	ip := o.fields[fieldIndex(o.typ, "IP")].(SliceV)
+	port := o.fields[fieldIndex(o.typ, "Port")].(IntV)
+	res := e.zeroVal(rt).(StructV)
+	addr := res.f[0].(StructV)
+	sentinel := func(name string) Value {
+		if c.st.ghost == nil {
+			c.st.ghost = map[string]Value{}
+		}
+		if v, ok := c.st.ghost["netip:"+name]; ok {
+			return v
+		}
+		id := e.newObj(c.st, &Object{kind: kStruct, typ: e.rtypeType(), fields: []Value{StrV{k: strLit, lit: name}}})
+		v := PtrV{id, -1}
+		c.st.ghost["netip:"+name] = v
+		return v
+	}
+	n := int64(0)
+	if ip.obj != 0 {
+		var ok bool
+		if n, ok = constInt(ip.ln); !ok {
+			panic(hardErr("AddrPort on an IP of symbolic length"))
+		}
+	}
+	if n == 4 || n == 16 {
+		canon, _ := e.ipCanon(c.st, ip)
+		z := "z6noz"
+		if n == 4 {
+			z = "z4"
+		}
+		u := addr.f[0].(StructV)
+		u.f = []Value{IntV{e.packBytes(canon[:8]), 64, false}, IntV{e.packBytes(canon[8:]), 64, false}}
+		h := addr.f[1].(StructV)
+		h.f = []Value{sentinel(z)}
+		addr.f = []Value{u, h}
+	}
+	pt := e.iconv(port, 16, false)
+	res.f = []Value{addr, pt}
+	c.set(res)
 	return true
 }
